@@ -92,6 +92,7 @@ type Sched struct {
 	Yields    int
 	lockIDs   map[*RWMutex]int
 	every     int
+	travel    int64
 	fnCount   int
 	BlockedRW int // probe: a writer had to wait behind readers / reader behind pending writer
 }
@@ -342,9 +343,17 @@ func Now() time.Time {
 // ClockSet moves the simulated clock (forward or backward).
 func ClockSet(t time.Time) {
 	if s := S; s != nil {
+		d := t.Sub(s.now)
+		if d < 0 {
+			d = -d
+		}
+		s.travel += int64(d)
 		s.now = t
 	}
 }
+
+// ClockTravel is the total simulated time covered by clock movements (absolute values summed).
+func (s *Sched) ClockTravel() int64 { return s.travel }
 
 func join(a, b []uint32) {
 	for i := range b {
